@@ -34,6 +34,7 @@ func init() {
 		tables.C16(p, r) // the ORIGIN block is part of the record: its layout rules are necessary for "same residues"
 		conserve.MapInit(p, r)
 		traps.NoDump(p, r)
+		traps.RangePrecond(p, r) // closure: a record an edit produced (an empty slice) must be writable at all
 	})
 	register("C16", false, func(p *core.Prog, r *core.Report, tier string) {
 		tables.C16(p, r)
@@ -61,6 +62,7 @@ func init() {
 		effects.PureOps(11, "Delete", "Erase", "Slice", "(FeatureSlice).Filter", "(GenBankFields).Slice", "*.Shift", "*.Expand")(p, r)
 		conserve.C03(p, r)
 		conserve.AsCompleteRules(p, r)
+		traps.RangePrecond(p, r) // (GenBankFields).Slice re-reads the REFERENCE ranges: slicing must not die on them
 		conserve.PointVanish(p, r)
 		conserve.QuantAll(p, r)
 		orders.RangePred(p, r)
@@ -172,6 +174,7 @@ func init() {
 	})
 	register("C15", false, func(p *core.Prog, r *core.Report, tier string) {
 		conserve.C15(p, r)
+		traps.RangePrecond(p, r) // split / extract write empty pieces (a cut at the first base, a zero-width site)
 		conserve.ConcatOffset(p, r) // extract locates multi-segment regions by concatenating their slices
 		multi := []string{"delete", "insert", "infix", "split", "rotate", "extract"}
 		conserve.StaleGuard(p, r, multi)
@@ -190,6 +193,7 @@ func init() {
 		traps.C07(p, r)
 		traps.CommitHonour(p, r)
 		traps.EOFMask(p, r)
+		traps.RangePrecond(p, r)
 		conserve.PeekAdvance(p, r)
 		traps.NoDump(p, r)
 		traps.OriginLength(p, r, true)
